@@ -31,7 +31,8 @@ RULE = ("history = 1-12 operations drawn state-dependently from {create / overwr
         "the end, drawn per history) the file is compared with the model. A second sub-check runs header-less Recfile "
         "histories (Recfile('w') / recfile.write, write-again, close, reopen with 'r+', overwrite, read-back). "
         "Non-trivial: the history has an append-by-reopen after a close, or an incompatible append, or an overwrite "
-        "followed by an append. Distinct = distinct case JSON.")
+        "followed by an append. Distinct = distinct case JSON."
+        " Also: binary chunks of 64 KiB..2 MiB (row count derived from the row size), reserved header names in any case.")
 ASSUMPTIONS = [
     "reads happen only while no write handle is open (documented usage; buffered data of an open handle need not be on disk)",
     "one handle at a time on a file; 1-d chunks with at least one row; packed dtypes",
